@@ -1524,12 +1524,23 @@ class Evaluator:
         bodies (a tree walk with an explicit work list, say): the generator's statements with `yield v` replaced by
         `x = v; BODY`, its parameters and locals renamed apart.  None when the shape is any other."""
         it = s.iter
-        if s.orelse or not (isinstance(it, ast.Call) and isinstance(it.func, ast.Name)) or any(isinstance(a, ast.Starred) for a in it.args) or any(k.arg is None for k in it.keywords):
+        if s.orelse or not isinstance(it, ast.Call) or any(isinstance(a, ast.Starred) for a in it.args) or any(k.arg is None for k in it.keywords):
             return None
-        r = self.m.resolve_name(mod, it.func.id)
-        if not (r and r[0] == 'func' and isinstance(r[1], FunctionInfo)):
+        on_self = None
+        if isinstance(it.func, ast.Name):
+            r = self.m.resolve_name(mod, it.func.id)
+            if not (r and r[0] == 'func' and isinstance(r[1], FunctionInfo)):
+                return None
+            g = r[1]
+        elif isinstance(it.func, ast.Attribute) and isinstance(it.func.value, ast.Name) and it.func.value.id == 'self' and fi is not None and fi.cls is not None \
+                and fi.kind == 'method' and fi.params()[:1] == ['self']:
+            # a generator method of the same object
+            g = fi.cls.resolve(it.func.attr)
+            if g is None or g.kind != 'method' or g.params()[:1] != ['self'] or self.m.overrides(fi.cls, g.name):
+                return None
+            on_self = 'self'
+        else:
             return None
-        g = r[1]
         gnode = g.node
         yields = [n for n in ast.walk(gnode) if isinstance(n, (ast.Yield, ast.YieldFrom))]
         if len(yields) != 1 or not isinstance(yields[0], ast.Yield) or yields[0].value is None or g.key in self._stack or depth > 6:
@@ -1555,6 +1566,8 @@ class Evaluator:
         if a.vararg or a.kwarg or a.kwonlyargs:
             return None
         params = [x.arg for x in a.posonlyargs + a.args]
+        if on_self:
+            params = params[1:]
         def code_names(ctx_type):
             out_n = set()
             todo_n = list(body)
@@ -1570,8 +1583,8 @@ class Evaluator:
                             todo_n.append(c_)
             return out_n
         local = set(params) | code_names(ast.Store)
-        free = code_names(ast.Load) - local
-        if any(f not in _BUILTINS for f in free):
+        free = code_names(ast.Load) - local - ({'self'} if on_self else set())
+        if g.module is not mod and any(f not in _BUILTINS for f in free):
             return None      # it reads names of its own module: they would be looked up in the caller's
         import copy as _copy
         ren = {n: f'__{g.name}_{n}' for n in local}
@@ -1591,7 +1604,7 @@ class Evaluator:
                 return None
             given[k.arg] = k.value
         nd = len(a.defaults)
-        defaults = dict(zip(params[len(params) - nd:], a.defaults))
+        defaults = dict(zip(params[len(params) - nd:], a.defaults)) if nd else {}
         pre: List[ast.stmt] = []
         for p_ in params:
             src = given.get(p_, defaults.get(p_))
